@@ -50,11 +50,11 @@ def layer(draw, mono):
     kinds = ['group_by', 'roll', 'roll', 'roll', 'split', 'split', 'split'] + (['time_split'] * 4 if mono else [])
     k = draw(st.sampled_from(kinds))
     if k == 'group_by':
-        return [k, draw(st.integers(2, 3))]
+        return [k, draw(st.sampled_from([2, 3, 2, 3, 4]))]
     if k == 'roll':
         return [k, draw(st.integers(1, 5)), draw(st.integers(1, 5))]
     if k == 'split':
-        return [k, draw(st.sampled_from(['div', 'mod', 'nonemod', 'gkey'])), draw(st.integers(2, 3))]
+        return [k, draw(st.sampled_from(['div', 'mod', 'nonemod', 'gkey', 'nanmod'])), draw(st.integers(2, 3))]
     return [k, draw(st.sampled_from([None, 1, 3, 5])), draw(st.sampled_from([None, 1, 2, 3])),
             draw(st.one_of(st.none(), st.tuples(st.integers(2, 4), st.integers(0, 1)).map(list))), draw(st.booleans())]
 
